@@ -63,6 +63,11 @@ add("C18", "other",
     "The race detector only sees executed schedules; the Go memory model is not modelled.",
     "Coq obligations on regenerated structure facts + race detector runs with concurrent-vs-isolated differential", "6/C18")
 
+add("C19", "other",
+    "Partial. Proved in Coq over regenerated facts: the CLI level table names only codecs known to the factories (levels 0..9 all accepted configurations). Searched on the built binary: random tree round trips over levels/options/jobs with exit codes, stdin/stdout, no-clobber without --force, refusal to write to its own input through same path / ./path / symlinks / hard links, --rm with failing outputs, SIGKILL at random times during --rm runs followed by inspection (source intact or output decodes).",
+    "The file system, durability and the syscall-level interleaving at a kill are not modelled; kill points are sampled in time.",
+    "Coq obligation on the regenerated level table + black-box runs of the built binary incl. kill points", "6/C19")
+
 NOT_YET = {}
 def main():
     props = [json.loads(l)["id"] for l in open(os.path.join(ROOT, "properties.jsonl"))]
